@@ -146,6 +146,11 @@ fn record(r: &ShellResult) -> Recorded {
                             bt.sigs.push(json!([pid, "S"]));
                         } else if ost == "S" && st == "R" && ch && pid != actor {
                             bt.sigs.push(json!([pid, "C"]));
+                        } else if ost == "R" && st == "R" && !och && ch && pid != actor {
+                            // stopped and continued within one step of the actor: only a
+                            // stop/continue pair sets the flag of a process that is running
+                            bt.sigs.push(json!([pid, "S"]));
+                            bt.sigs.push(json!([pid, "C"]));
                         } else if ost == "S" && st.starts_with('K') && pid != actor {
                             // continued and killed in one step of the actor
                             bt.sigs.push(json!([pid, "C"]));
@@ -216,15 +221,25 @@ fn record(r: &ShellResult) -> Recorded {
 }
 
 /// `mypid`: prints the simulated process id of the calling process (a
-/// pipeline member publishes it through a FIFO so that another process can
-/// signal it).
+/// pipeline member publishes it through a pipe so that another process can
+/// signal it).  `mypid NAME` assigns it to the variable NAME instead (no fork,
+/// nothing written): an asynchronous child of the caller inherits the
+/// variable and can stop / continue its parent.
 fn mypid_main(
     env: &mut yvcommon::shell::VEnv,
-    _args: Vec<yash_env::semantics::Field>,
+    args: Vec<yash_env::semantics::Field>,
 ) -> std::pin::Pin<Box<dyn Future<Output = yash_env::builtin::Result> + '_>> {
     use yash_env::system::GetPid as _;
     use yash_env::system::concurrency::WriteAll as _;
     Box::pin(async move {
+        if let Some(name) = args.first() {
+            let pid = env.system.getpid().0.to_string();
+            let st = match env.variables.get_or_new(name.value.clone(), yash_env::variable::Scope::Global).assign(pid, None) {
+                Ok(_) => 0,
+                Err(_) => 1,
+            };
+            return yash_env::builtin::Result::new(yash_env::semantics::ExitStatus(st));
+        }
         let line = format!("{}\n", env.system.getpid().0);
         let st = match env.system.write_all(yash_env::io::Fd::STDOUT, line.as_bytes()).await {
             Ok(()) => 0,
